@@ -27,6 +27,8 @@ def usets(inst):
         [u("HP", "Hot", top, top), u("XP", "Both", top - step / 2, top - step / 2, dt=dstep / 2), u("CW", "Cold", bot, bot)],
         [u("HP", "Hot", top, top), u("MP", "Both", (T[1] + T[2]) / 2, (T[1] + T[2]) / 2, dt=dstep / 2),
          u("LP", "Both", (T[0] + T[1]) / 2, (T[0] + T[1]) / 2, dt=dstep / 2), u("CW", "Cold", bot, bot)],
+        # one header within 1 K of two generation levels that have different contributions
+        [u("HP", "Hot", top, top), u("LPS", "Both", T[1], T[1], dt=dstep / 2), u("LPgen", "Cold", T[1] - 0.5, T[1] - 0.5, dt=0.0), u("CW", "Cold", bot, bot)],
     ]
 
 
@@ -39,11 +41,11 @@ def cases(tier, inst):
                 nb = max(part) + 1
                 if nb < 2:
                     continue
-                for ui in range(4):
+                for ui in range(5):
                     forms = ["flat"]
                     if n == 2 or tier == "thorough":
                         forms += ["tree"]
-                    if nb >= 2 and (ui in (0, 1)) and (n == 2 or tier == "thorough"):
+                    if nb >= 2 and (ui in (0, 1, 4)) and (n == 2 or tier == "thorough"):
                         forms += ["nested"]
                     for form in forms:
                         yield {"streams": ms, "part": list(part), "uset": ui, "form": form, "inst": list(inst)}
